@@ -150,7 +150,8 @@ class LatexEncodingMiddleware(_PyStringTransformerMiddleware):
         try:
             return self._encoder.unicode_to_latex(python_string), ""
         except Exception as e:
-            return python_string, str(e)
+            # (an exception without a message still is a failure: "" means success to the callers)
+            return python_string, str(e) or repr(e)
 
 
 class LatexDecodingMiddleware(_PyStringTransformerMiddleware):
@@ -217,4 +218,5 @@ class LatexDecodingMiddleware(_PyStringTransformerMiddleware):
         try:
             return self._decoder.latex_to_text(python_string), ""
         except Exception as e:
-            return python_string, str(e)
+            # (an exception without a message still is a failure: "" means success to the callers)
+            return python_string, str(e) or repr(e)
